@@ -22,7 +22,7 @@ ANCHOR_FILES = _simp.ANCHOR_FILES
 ASSUMPTIONS = ['vt.refsem truth tables for the equivalence predicate; Circuit.__eq__ (gates, inputs, outputs) for pipeline equality']
 REQUIRED = {'mon:transform.checked': 300, 'effect:RRG': 50, 'effect:RRG_in': 50, 'effect:MDG': 50, 'effect:MEG': 50,
             'effect:MUO': 50, 'muo_all_negations': 20, 'muo_all_buffers': 20, 'rrg_idempotence': 50,
-            'pipeline_vs_manual': 100, 'cleanup_vs_manual': 50, 'deep_circuits': 2}
+            'pipeline_vs_manual': 100, 'cleanup_vs_manual': 50, 'deep_circuits': 2, 'user_defined_pass': 50}
 
 
 def shards(tier, seed):
@@ -39,6 +39,40 @@ def _manual(c, leaves):
     for l in leaves:
         c = _simp.leaf(l).transform(c)
     return c
+
+
+_USER_CLS = {}
+
+
+def user_pass(op, pre, post):
+    """A pass the caller defines (the documented extension point: subclass Transformer, name the passes it needs before
+    and after in the super call).  Its own step keeps the function: 'copy' returns a copy, 'wrap' puts NOT(NOT(.)) on
+    every output - work for the passes it asks for afterwards."""
+    import copy as _copy
+    from cirbo.core.circuit.transformer import Transformer
+    from cirbo.core.circuit import gate as G
+    if 'cls' not in _USER_CLS:
+        class VtUserPass(Transformer):
+            def __init__(self, op_, pre_=(), post_=()):
+                super().__init__(pre_transformers=tuple(pre_), post_transformers=tuple(post_))
+                self._op = op_
+
+            def _transform(self, circuit):
+                c = _copy.copy(circuit)
+                if self._op == 'wrap':
+                    outs = []
+                    for k, o in enumerate(list(c.outputs)):
+                        a, b = 'vtw%d_a' % k, 'vtw%d_b' % k
+                        if c.has_gate(a) or c.has_gate(b):
+                            outs.append(o)
+                            continue
+                        c.emplace_gate(a, G.NOT, (o,))
+                        c.emplace_gate(b, G.NOT, (a,))
+                        outs.append(b)
+                    c.set_outputs(outs)
+                return c
+        _USER_CLS['cls'] = VtUserPass
+    return _USER_CLS['cls'](op, [_simp.leaf(x) for x in pre], [_simp.leaf(x) for x in post])
 
 
 def check_case(case, ctx):
@@ -109,9 +143,24 @@ def check_case(case, ctx):
             elif form == 'cleanup':
                 res = cleanup(c, use_heavy=desc)
                 leaves = ['RRG', 'MUO', 'MDG'] + (['MEG'] if desc else [])
+            elif form in ('user', 'user_in_list'):
+                # a caller-defined pass that names library passes to run before / after it: the passes those imply in
+                # turn belong to the pipeline as well ("implied pre/post passes", at any depth)
+                op, pre, post = desc
+                up = user_pass(op, pre, post)
+                res = up.transform(c) if form == 'user' else Transformer.apply_transformers(c, [up])
+                leaves = list(pre) + ['user:' + op] + list(post)
+                ctx.count('user_defined_pass')
+                man = c
+                for l in pre:
+                    man = _simp.leaf(l).transform(man)
+                man = user_pass(op, (), ())._transform(man)
+                for l in post:
+                    man = _simp.leaf(l).transform(man)
             else:
                 continue
-            man = _manual(c, leaves)
+            if form not in ('user', 'user_in_list'):
+                man = _manual(c, leaves)
         except Exception as e:
             ctx.unexpected('pipeline:%s' % form, e, dict(case, failing=[form, desc]))
             continue
@@ -139,6 +188,9 @@ def gen_case(rng, spec):
     calls.append(['transform', ['pipe', 'RRG', 'RRG_in', 'RRG_in', 'MDG', 'RRG']])
     calls.append(['cleanup', False])
     calls.append(['cleanup', True])
+    calls.append([rng.choice(['user', 'user_in_list']),
+                  [rng.choice(['copy', 'wrap']), [rng.choice(_simp.LEAVES) for _ in range(rng.randint(0, 2))],
+                   [rng.choice(_simp.LEAVES) for _ in range(rng.randint(1, 2))]]])
     case = {'kind': 'random', 'shape': shape, 'net': netgen.describe(net), 'rseed': rng.getrandbits(32),
             'shuffle': rng.random() < 0.25, 'calls': calls, 'edited': rng.random() < 0.3}
     if spec.get('kind') == 'deep':   # a long dependency chain instead (ripple / iterated constructions)
